@@ -83,4 +83,69 @@ theorem fm_zero (r : (ZMod m)ˣ) (a : ℤ) : fm r a = 0 ↔ (a : ZMod m) = 0 := 
   unfold fm
   exact Units.mul_left_eq_zero (r⁻¹)
 
+
+section Field
+
+
+/-! Field facts used by the point-decoding, signing and hash-to-curve proofs, for an arbitrary prime p
+(instances: p = P).  Primality of the literal P is not re-proved; it is the remaining assumption. -/
+
+variable {p : ℕ} [Fact p.Prime]
+
+theorem mul_nonzero (a b : ZMod p) (ha : a ≠ 0) (hb : b ≠ 0) : a * b ≠ 0 := mul_ne_zero ha hb
+
+theorem sqrt_unique (a y z : ZMod p) (hy : y * y = a) (hz : z * z = a) : z = y ∨ z = -y := by
+  have h : z * z = y * y := by rw [hy, hz]
+  exact mul_self_eq_mul_self_iff.mp h
+
+/-- For odd p and y ≠ 0 the canonical representatives of y and -y have different parity. -/
+theorem neg_parity (hp : p % 2 = 1) (y : ZMod p) (hy : y ≠ 0) : (-y).val % 2 = 1 - y.val % 2 := by
+  have hlt : y.val < p := ZMod.val_lt y
+  have hpos : 0 < y.val := by
+    rcases Nat.eq_zero_or_pos y.val with h | h
+    · exact absurd ((ZMod.val_eq_zero y).mp h) hy
+    · exact h
+  have hneg : (-y).val = p - y.val := by
+    rw [ZMod.neg_val]; simp [hy]
+  rw [hneg]; omega
+
+theorem sqrt_sign_unique (hp : p % 2 = 1) (a y z : ZMod p) (b : ℕ) (hy : y * y = a) (hz : z * z = a) (ha : a ≠ 0)
+    (hyb : y.val % 2 = b) (hzb : z.val % 2 = b ∨ z = 0) : z = y := by
+  have hy0 : y ≠ 0 := by
+    intro h; apply ha; rw [← hy, h, mul_zero]
+  have hz0 : z ≠ 0 := by
+    intro h; apply ha; rw [← hz, h, mul_zero]
+  have hzb' : z.val % 2 = b := by
+    rcases hzb with h | h
+    · exact h
+    · exact absurd h hz0
+  rcases sqrt_unique a y z hy hz with h | h
+  · exact h
+  · exfalso
+    have := neg_parity hp y hy0
+    rw [← h] at this
+    omega
+
+/-- Euler's criterion in the form used by the decoder, for p = 3 (mod 4). -/
+theorem euler_sqrt (hp : p % 4 = 3) (a : ZMod p) : IsSquare a ↔ a ^ ((p + 1) / 2) = a := by
+  have hodd : p % 2 = 1 := by omega
+  have hk : (p + 1) / 2 = p / 2 + 1 := by omega
+  by_cases ha : a = 0
+  · subst ha
+    constructor
+    · intro _; rw [zero_pow]; omega
+    · intro _; exact ⟨0, by simp⟩
+  · rw [hk, pow_succ, ZMod.euler_criterion (p := p) ha]
+    constructor
+    · intro h; rw [h, one_mul]
+    · intro h
+      have : a ^ (p / 2) * a = 1 * a := by rw [h, one_mul]
+      exact mul_right_cancel₀ ha this
+
+theorem powsq {R : Type*} [Monoid R] (x : R) (i : ℕ) : x ^ (2 ^ i) * x ^ (2 ^ i) = x ^ (2 ^ (i + 1)) := by
+  rw [← pow_add, pow_succ, mul_two]
+
+
+end Field
+
 end Verif
